@@ -209,7 +209,8 @@ let replay (file : string) (dumpmodel : bool) : unit =
              List.iter (fun l -> print_endline ("ST " ^ l)) (dump s' !nacc)
            end;
            let ires = !cur_res in
-           if ires <> mres then
+           if dumpmodel then ()
+           else if ires <> mres then
              mismatch := Some (!nops, "RES", "RES " ^ ires, "RES " ^ mres)
            else if mres <> "panic" then begin
              let impl = List.sort compare (List.rev !cur_st) in
